@@ -130,7 +130,7 @@ def cases(ctx):
             hs += [repr(float(ms) - 1), repr(float(ms)), repr(float(ms) + 1)]
         for h in hs:
             out.append((c, h))
-    n_rand = 300 if ctx.tier == 'quick' else 6000
+    n_rand = 300 if ctx.tier == 'quick' else 120000
     rng = ctx.rng
     for _ in range(n_rand):
         r = rng.random()
